@@ -63,7 +63,10 @@ impl TryFrom<WireCommitProof> for CommitProof {
 
     fn try_from(value: WireCommitProof) -> Result<Self> {
         Ok(CommitProof {
-            root: value.root.unwrap().try_into()?,
+            root: value
+                .root
+                .ok_or_else(crate::bindings::missing_field)?
+                .try_into()?,
             length: value.length as usize,
             proof: MerkleProof::<Sha256>::from_bytes(&value.proof)?,
             indices: value.indices.into_iter().map(|i| i as usize).collect(),
@@ -91,8 +94,14 @@ impl TryFrom<WireCommitState> for CommitState {
 
     fn try_from(value: WireCommitState) -> Result<Self> {
         Ok(CommitState(
-            value.hash.unwrap().try_into()?,
-            value.proof.unwrap().try_into()?,
+            value
+                .hash
+                .ok_or_else(crate::bindings::missing_field)?
+                .try_into()?,
+            value
+                .proof
+                .ok_or_else(crate::bindings::missing_field)?
+                .try_into()?,
         ))
     }
 }
@@ -115,9 +124,18 @@ impl TryFrom<WireEventRecord> for EventRecord {
 
     fn try_from(value: WireEventRecord) -> Result<Self> {
         Ok(EventRecord::new(
-            value.time.unwrap().try_into()?,
-            value.last_commit.unwrap().try_into()?,
-            value.commit.unwrap().try_into()?,
+            value
+                .time
+                .ok_or_else(crate::bindings::missing_field)?
+                .try_into()?,
+            value
+                .last_commit
+                .ok_or_else(crate::bindings::missing_field)?
+                .try_into()?,
+            value
+                .commit
+                .ok_or_else(crate::bindings::missing_field)?
+                .try_into()?,
             value.event,
         ))
     }
@@ -148,11 +166,14 @@ impl TryFrom<WireCheckedPatch> for CheckedPatch {
     type Error = Error;
 
     fn try_from(value: WireCheckedPatch) -> Result<Self> {
-        let inner = value.inner.unwrap();
+        let inner = value.inner.ok_or_else(crate::bindings::missing_field)?;
         Ok(match inner {
-            wire_checked_patch::Inner::Success(success) => {
-                Self::Success(success.proof.unwrap().try_into()?)
-            }
+            wire_checked_patch::Inner::Success(success) => Self::Success(
+                success
+                    .proof
+                    .ok_or_else(crate::bindings::missing_field)?
+                    .try_into()?,
+            ),
             wire_checked_patch::Inner::Conflict(conflict) => {
                 let contains = if let Some(contains) = conflict.contains {
                     Some(contains.try_into()?)
@@ -160,7 +181,10 @@ impl TryFrom<WireCheckedPatch> for CheckedPatch {
                     None
                 };
                 Self::Conflict {
-                    head: conflict.head.unwrap().try_into()?,
+                    head: conflict
+                        .head
+                        .ok_or_else(crate::bindings::missing_field)?
+                        .try_into()?,
                     contains,
                 }
             }
@@ -198,7 +222,7 @@ impl TryFrom<WireEventLogType> for EventLogType {
     type Error = Error;
 
     fn try_from(value: WireEventLogType) -> Result<Self> {
-        let inner = value.inner.unwrap();
+        let inner = value.inner.ok_or_else(crate::bindings::missing_field)?;
         Ok(match inner {
             wire_event_log_type::Inner::User(value) => {
                 EventLogType::Folder(decode_uuid(&value.folder_id)?)
